@@ -451,14 +451,6 @@ func (c *Client) acker() error {
 				return c.die(TransportError, err)
 			}
 
-			// remove publish from session if pubcomp
-			if pubcomp, ok := pkt.(*packet.Pubcomp); ok {
-				err = c.session.DeletePacket(session.Incoming, pubcomp.ID)
-				if err != nil {
-					return c.die(SessionError, err)
-				}
-			}
-
 			// put back tokens based on type
 			switch pkt.(type) {
 			case *packet.Suback, *packet.Unsuback:
@@ -920,6 +912,14 @@ func (c *Client) processPubrel(id packet.ID) error {
 	ack := func() {
 		once.Do(func() {
 			c.backend.Log(MessageAcknowledged, c, nil, &publish.Message, nil)
+
+			// remove publish from session as soon as the backend has
+			// accepted it, a retransmitted pubrel must not publish it again
+			err := c.session.DeletePacket(session.Incoming, id)
+			if err != nil {
+				_ = c.die(SessionError, err)
+				return
+			}
 
 			// queue pubcomp
 			select {
